@@ -501,6 +501,13 @@ func c01History(r *Run, h int, ts TxnSchema, nT int, plans []monPlan, txns []Txn
 				if t2, ok := genDoubleMutateTxn(r.Rng, ts, sh); ok {
 					txn = t2
 				}
+			} else if ts.Spec.Tables[0].Col("wset") != nil && r.Rng.Intn(3) != 0 {
+				// a row that refers weakly to one row through a set and through an optional column, and the
+				// deletion of that row: the pruning touches both columns of the referrer
+				if t2, ok := genWeakBothTxn(r.Rng, ts, sh); ok {
+					txn = t2
+					count("weak-both:" + t2.Ops[0].Op)
+				}
 			}
 			clampWaits(&txn)
 			if len(clients) > 0 && r.Rng.Intn(3) == 0 {
